@@ -39,7 +39,7 @@ _STR_METHODS = frozenset({'startswith', 'endswith', 'lower', 'upper', 'strip', '
 
 
 _PURE_BUILTINS = {'next': next, 'iter': iter, 'dict': dict, 'list': list, 'tuple': tuple, 'set': set, 'sorted': sorted, 'range': range, 'enumerate': enumerate, 'zip': zip, 'reversed': reversed,
-                  'min': min, 'max': max, 'abs': abs, 'sum': sum, 'len': len, 'str': str, 'int': int, 'bool': bool, 'repr': repr}
+                  'min': min, 'max': max, 'abs': abs, 'sum': sum, 'len': len, 'str': str, 'int': int, 'bool': bool, 'repr': repr, 'frozenset': frozenset}
 
 
 import posixpath as _pp
@@ -1080,6 +1080,12 @@ class FDE:
                         from .srcmodel import FuncInfo
                         self.class_objs[key] = self._ev(g, {}, fi)
                     return self.class_objs[key]
+                if isinstance(g, ast.Call) and isinstance(g.func, ast.Name) and g.func.id in ('frozenset', 'tuple', 'set', 'list', 'dict', 'sorted') and not g.keywords and len(g.args) <= 1 \
+                        and fi.module.constant_binding(e.id) is g and all(isinstance(x, (ast.Tuple, ast.List, ast.Set, ast.Dict, ast.Constant, ast.Load, ast.Store)) or x is g or x is g.func for a_ in g.args for x in ast.walk(a_)):
+                    key = ('global', fi.module.relpath, e.id)
+                    if key not in self.class_objs:
+                        self.class_objs[key] = self._ev(g, {}, fi)       # NAME = frozenset((<literals>)) and the like: evaluated once
+                    return self.class_objs[key]
                 if isinstance(g, ast.Call) and isinstance(g.func, ast.Name) and g.func.id == 'object' and not g.args and not g.keywords and fi.module.constant_binding(e.id) is g:
                     key = ('global', fi.module.relpath, e.id)
                     if key not in self.class_objs:
@@ -2071,6 +2077,19 @@ class FDE:
             return self._apply(target[1], list(target[2]) + list(args), dict(target[3], **kwargs), e)
         if isinstance(target, tuple) and target and target[0] == 'closure':
             return self._invoke(target[1], args, kwargs, base_env=target[2])
+        if isinstance(target, tuple) and len(target) == 2 and target[0] == 'class' and target[1] in self.repo.classes:
+            # a class of the package held in a value (chosen by a helper / a table) and then called: as the call by name
+            n_ = target[1]
+            if n_ in self.constructors:
+                self.effects.append(('instantiate', n_, tuple(args), tuple(sorted(kwargs.items(), key=lambda kv: kv[0]))))
+                return self._construct_standin(n_, args, kwargs)
+            if n_ in self.stubs and self.stub is not None:
+                self.effects.append(('call', n_, None, tuple(args), tuple(sorted(kwargs.items(), key=lambda kv: kv[0]))))
+                return self.stub(n_, None, args, kwargs)
+            if self._plain_class(n_):
+                return self._construct_plain(n_, args, kwargs, {}, None)
+            self.effects.append(('instantiate', n_, tuple(args), tuple(sorted(kwargs.items(), key=lambda kv: kv[0]))))
+            return Opaque('instance of ' + n_)
         if isinstance(target, tuple) and target and target[0] == 'ntclass':
             try:
                 return target[1](*args, **kwargs)
